@@ -12,6 +12,7 @@ import (
 	"net"
 	"net/http"
 	"net/http/httptest"
+	"net/url"
 	"os"
 	"regexp"
 	"strconv"
@@ -99,6 +100,8 @@ type World struct {
 
 	servers    map[string]interface{ Update(server.ServerOption) }
 	lastServer interface{ Update(server.ServerOption) }
+	adminOnce  sync.Once
+	adminAddr  string
 	Stores     map[string]*MemStore
 	upSrv      *httptest.Server
 	UpAddr     string
@@ -859,6 +862,40 @@ func (w *World) PurgeCall(name string, ds []string, model string, concreteKey st
 		w.emitLocked(Event{"op": "PurgeReturn", "ds": ds, "k": model})
 	}
 	w.mu.Unlock()
+}
+
+// AdminPurgeCall the administrator's purge through pike's admin server: DELETE /cache?key=&cache=
+func (w *World) AdminPurgeCall(name string, ds []string, model string, concreteKey string) error {
+	w.adminOnce.Do(func() {
+		w.adminAddr = fmt.Sprintf("127.0.0.1:%d", freePort())
+		go func() { _ = server.StartAdminServer(server.AdminServerConfig{Addr: w.adminAddr}) }()
+		for i := 0; i < 300; i++ {
+			c, err := net.DialTimeout("tcp", w.adminAddr, 100*time.Millisecond)
+			if err == nil {
+				c.Close()
+				break
+			}
+			time.Sleep(10 * time.Millisecond)
+		}
+	})
+	w.Emit(Event{"op": "PurgeCall", "ds": ds, "k": model})
+	q := url.Values{}
+	q.Set("key", concreteKey)
+	if name != "" {
+		q.Set("cache", name)
+	}
+	req, _ := http.NewRequest("DELETE", "http://"+w.adminAddr+"/cache?"+q.Encode(), nil)
+	resp, err := http.DefaultClient.Do(req)
+	if err != nil {
+		return err
+	}
+	_, _ = ioutil.ReadAll(resp.Body)
+	resp.Body.Close()
+	if resp.StatusCode >= 300 {
+		return fmt.Errorf("admin purge: status %d", resp.StatusCode)
+	}
+	w.Emit(Event{"op": "PurgeReturn", "ds": ds, "k": model})
+	return nil
 }
 
 // Purge runs cache.RemoveHTTPCache on the calling goroutine
